@@ -443,10 +443,10 @@ def run(ck, bdir, tier):
                                       % (cfg, r.violated or r.error, r.out[-1500:]))
     items = []
     exported = {}
-    for name, budget in (("D", 1200), ("E", 2400)):
+    for name, budget, deep in (("D", 1200, 40000), ("E", 2400, 60000)):
         lines = runs[name][1].lines
         exported[name] = len(lines)
-        sel = select(lines, budget if quick else None, rng)
+        sel = select(lines, budget if quick else deep, rng)
         items += [(name, i, p) for i, p in enumerate(sel)]
     ck.phase("runtime_tlc")
 
@@ -513,8 +513,8 @@ def run(ck, bdir, tier):
         ck.sample({"kind": "runtime", "program": it[2]["progs"], "merge": it[2]["merge"], "emulator": r_["emu"]})
     ck.notes["runtime_marks"] = dict(stats, programs_exported_by_tlc=exported, programs_replayed=len(items),
                                      agreeing=agree, trace_validation=tv_note, unspecified_calls_observed=unspec,
-                                     sampling=("stratified by refusal reason / conflict kinds / event kinds"
-                                               if quick else "all exported programs"))
+                                     sampling="stratified by refusal reason / conflict kinds / event kinds "
+                                              "(all exported programs when they fit the budget)")
     ck.assumptions += [
         "runtime marks: one process per thread, started concurrently; CLOCK_MONOTONIC orders their events "
         "(events with equal clocks are replayed without comparing the view)",
